@@ -114,6 +114,7 @@ class Interp:
         self.fresh_n = 0
         self.info = []
         self.checks = []               # (key, ok, detail) produced by sweep hooks
+        self.lenient = False           # statement-slice mode: values outside the typed fragment stay opaque instead of aborting
 
     # the facts of the current path live in the space (single source of truth, also seen by operand closures)
     @property
@@ -190,6 +191,7 @@ class Interp:
         sub.fresh_n = self.fresh_n
         sub.info = self.info
         sub.checks = self.checks
+        sub.lenient = self.lenient
         frame = Frame(f, env)
         try:
             sub.exec_block(fn.body, frame)
@@ -204,6 +206,9 @@ class Interp:
             return self.const(node.value)
         if isinstance(node, (ast.List, ast.Tuple)) and not node.elts:
             return VList([])
+        if isinstance(node, ast.UnaryOp) and isinstance(node.op, ast.USub) and isinstance(node.operand, ast.Constant) \
+                and isinstance(node.operand.value, (int, float)) and not isinstance(node.operand.value, bool):
+            return self.const(-node.operand.value)
         return VOpaque("default:" + norm(node)[:30])
 
     def const(self, v):
@@ -312,6 +317,9 @@ class Interp:
                     base.cores = v
                 else:
                     base.extra[nm] = v
+                return
+            if isinstance(base, VObj):
+                base.attrs[t.attr] = v
                 return
             raise Unmodelled("attribute store")
         raise Unmodelled(f"assignment target {type(t).__name__}")
@@ -701,6 +709,8 @@ class Interp:
     def binop(self, op, l, r, fr, node):
         if isinstance(l, VStr) or isinstance(r, VStr):
             return VStr("")
+        if self.lenient and (isinstance(l, VOpaque) or isinstance(r, VOpaque)):
+            return VOpaque("untyped-expression")
         if isinstance(l, VInt) and isinstance(r, VInt):
             if isinstance(op, ast.Add):
                 return VInt(l.p + r.p)
@@ -802,7 +812,9 @@ class Interp:
                 if isinstance(t, VTensor) and c is not None and not isinstance(s, VTensor):
                     if isinstance(op, ast.Div):
                         if not tensor_left:
-                            raise Unmodelled("scalar / tensor")
+                            d = t.dense()
+                            rec = net.recip_atom(self.sp, d)
+                            return VTensor(_scale(rec, c), t.dtype)
                         c = c.inv()
                     return VTensor(_scale(t.val, c), t.dtype)
             if isinstance(l, VTensor) and isinstance(r, VTensor):
@@ -813,6 +825,14 @@ class Interp:
                         if isinstance(op, ast.Div) and s is l:
                             raise Unmodelled("scalar / tensor")
                         return VTensor(_scale(t.val, c if isinstance(op, ast.Mult) else c.inv()), t.dtype)
+                a, b = l.dense(), r.dense()
+                if isinstance(op, ast.Mult) and a.ndim() == b.ndim() and a.ndim() <= 20:
+                    letters = "abcdefghijklmnopqrstuvwxyz"[:a.ndim()]
+                    n0 = len(self.sp.obligations)
+                    res = net.einsum(self.sp, f"{letters},{letters}->{letters}", [a, b])
+                    for ob in self.sp.obligations[n0:]:
+                        ob["ctx"] = "elementwise * of two tensors: " + ob["ctx"]
+                    return VTensor(res, l.dtype)
                 raise Unmodelled("elementwise product of tensors")
         if isinstance(op, (ast.Add, ast.Sub)):
             if isinstance(l, VTensor) and isinstance(r, VTensor):
@@ -906,6 +926,10 @@ class Interp:
             r = VFloat(float(r.p.const_value()))
         if isinstance(l, VInt) and isinstance(r, VFloat) and l.p.const_value() is not None:
             l = VFloat(float(l.p.const_value()))
+        if isinstance(l, VInt) and isinstance(r, (VFloat, VScalar)) or isinstance(l, (VFloat, VScalar)) and isinstance(r, VInt):
+            def show(v):
+                return repr(self.facts.norm(v.p)) if isinstance(v, VInt) else (repr(v.x) if isinstance(v, VFloat) else v.coef.show())
+            return VBool(None, f"{show(l)} {sym} {show(r)}")
         if isinstance(l, VFloat) and isinstance(r, VFloat):
             return VBool({"==": l.x == r.x, "!=": l.x != r.x, "<": l.x < r.x, "<=": l.x <= r.x, ">": l.x > r.x, ">=": l.x >= r.x}[sym])
         if sym in ("==", "!=") and type(l) is not type(r) and isinstance(l, (VSlice, VNone, VOpaque, VStr, VTuple, VList, VInt)) \
